@@ -277,6 +277,10 @@ class Interp:
             return self.instantiate(f, args, kwargs)
         if isinstance(f, LocalFunction):
             return self.call_local(f, args, kwargs)
+        if isinstance(f, Instance):
+            # calling an instance of a repository class: its __call__ method
+            m = self.getattr(f, '__call__', node)
+            return self.call_value(m, args, kwargs, node)
         if hasattr(f, 'mod') and hasattr(f, 'node') and hasattr(f, 'qual'):      # core.Fn
             return self.call_fn(f, args, kwargs)
         if callable(f):
@@ -434,7 +438,8 @@ class Interp:
             return getattr(o, attr)
         except AttributeError as e:
             if any(o is m for m in self.libs.values()) or (isinstance(o, type) and getattr(o, '__module__', '').startswith('ttsa.')) or \
-                    (getattr(type(o), '__module__', '').startswith('ttsa.') and type(o).__name__ in ('_Ufunc', 'LU') or type(o).__name__.startswith('Fake')):
+                    (getattr(type(o), '__module__', '').startswith('ttsa.') and not isinstance(o, (Instance, BoundMethod, ClassRef, LocalFunction))):
+                # an attribute the abstract value (array descriptor, dtype, fake library object ...) does not model: no verdict about the program
                 raise AnalysisError(f'library attribute {getattr(o, "__name__", o)}.{attr} has no model in this domain ({self.where()})')
             raise Raised('AttributeError', str(e), node, self.cur_fn())
 
